@@ -146,6 +146,8 @@ def _lead_start(lines, k):
 
 
 def extract_entity(repo, ent):
+    if ent.get('kind') == 'funcs':
+        return extract_many(repo, ent)
     path = os.path.join(repo, ent['file'])
     try:
         raw = open(path, encoding='utf-8', errors='replace').read()
@@ -177,6 +179,40 @@ def extract_entity(repo, ent):
     return {
         'id': ent['id'], 'file': ent['file'], 'kind': kind,
         'first_line': a + 1, 'last_line': b + 1,
+        'sha256': hashlib.sha256(text.encode()).hexdigest(),
+        'text': text,
+    }
+
+
+def extract_many(repo, ent):
+    """kind 'funcs': every function definition whose declarator line matches "start"; at least
+    ent["min"] of them must exist (must-fire), each is copied verbatim; '#line' directives keep
+    the original line numbers."""
+    path = os.path.join(repo, ent['file'])
+    try:
+        raw = open(path, encoding='utf-8', errors='replace').read()
+    except OSError as e:
+        raise ExtractError('cannot read %s: %s' % (path, e))
+    lines = raw.split('\n')
+    r = re.compile(ent['start'])
+    hits = [k for k in range(len(lines)) if r.search(lines[k])]
+    if len(hits) < ent.get('min', 1):
+        raise ExtractError('%s: /%s/ matches %d definitions, need >= %d'
+                           % (ent['file'], ent['start'], len(hits), ent.get('min', 1)))
+    parts = []
+    names = []
+    for k in hits:
+        a = _lead_start(lines, k)
+        off = sum(len(l) + 1 for l in lines[:k])
+        ob = _find_open_brace(raw, off)
+        cb = _scan_to_matching_brace(raw, ob)
+        b = raw.count('\n', 0, cb)
+        parts.append('#line %d "%s"\n' % (a + 1, path) + '\n'.join(lines[a:b + 1]) + '\n')
+        names.append(lines[k].strip())
+    text = ''.join(parts)
+    return {
+        'id': ent['id'], 'file': ent['file'], 'kind': 'funcs',
+        'first_line': hits[0] + 1, 'last_line': hits[-1] + 1, 'count': len(hits),
         'sha256': hashlib.sha256(text.encode()).hexdigest(),
         'text': text,
     }
